@@ -83,6 +83,27 @@ func genSshWire(tier string, r *rng) {
 	emitB(append(append(wireStr([]byte("ssh-rsa")), wireMpint(big.NewInt(65537))...), wireStr(n1024.Bytes())...), "-")            // n with its top bit set and no zero octet: negative
 	emitB(append(append(wireStr([]byte("ssh-rsa")), wireMpint(big.NewInt(65537))...), wireStr([]byte{0xff, 0xff})...), "-")       // n = -1
 	emitB(append(append(wireStr([]byte("ssh-rsa")), wireMpint(big.NewInt(65537))...), wireStr([]byte{0x80})...), "-")             // n = -128
+	// DSA: four mpints; x/crypto takes 1024-bit primes only
+	for _, bl := range []int{1024, 1024, 1023, 1025, 512, 2048, 0, 1016} {
+		p := new(big.Int)
+		if bl > 0 {
+			p.SetBytes(r.bytes((bl + 7) / 8))
+			p.SetBit(p, bl-1, 1)
+			for i := p.BitLen() - 1; i >= bl; i-- {
+				p.SetBit(p, i, 0)
+			}
+		}
+		q, g, y := new(big.Int).SetBytes(r.bytes(20)), new(big.Int).SetBytes(r.bytes(127)), new(big.Int).SetBytes(r.bytes(128))
+		blob := append(append(append(append(wireStr([]byte("ssh-dss")), wireMpint(p)...), wireMpint(q)...), wireMpint(g)...), wireMpint(y)...)
+		if bl == 1024 {
+			goodBlobs = append(goodBlobs, blob)
+			emitB(blob, "dsa", hx(p.Bytes()))
+		} else {
+			emitB(blob, "-")
+		}
+		emitB(blob[:len(blob)-1], "-")
+		emitB(append(append([]byte{}, blob...), 7), "-")
+	}
 	// Ed25519: key lengths around 32
 	for _, l := range []int{0, 1, 31, 32, 33, 64} {
 		k := r.bytes(l)
@@ -103,7 +124,7 @@ func genSshWire(tier string, r *rng) {
 		emitB(append(append(wireStr([]byte(name)), wireMpint(big.NewInt(65537))...), wireMpint(n1024)...), "-")
 	}
 	// every truncation, trailing octets, lying length fields, single-octet substitutions
-	for _, blob := range [][]byte{goodBlobs[4], goodBlobs[len(goodBlobs)/2], append(wireStr([]byte("ssh-ed25519")), wireStr(r.bytes(32))...)} {
+	for _, blob := range [][]byte{goodBlobs[4], goodBlobs[len(goodBlobs)/2], goodBlobs[len(goodBlobs)-1], append(wireStr([]byte("ssh-ed25519")), wireStr(r.bytes(32))...)} {
 		for i := 0; i < len(blob); i++ {
 			emitB(blob[:i], "-")
 		}
